@@ -107,6 +107,53 @@ def run_case(ctx, rng, idx):
             ctx.sample({"type": node.src, "x": repr(x)[:200], "dump": repr(node.dump(x))[:200]})
         n += 1
         round_trip(ctx, node, prog, x)
+        if n == 1:
+            sqlalchemy_json_leg(ctx, node, x)
+
+
+def sqlalchemy_json_leg(ctx, node, x):
+    """The round trip as the repository's own SQLAlchemy integration performs it: AdaptixJSON(retort, T) dumps on bind and loads on result.
+    Whatever the dumped document looks like - {} , [] , 0 , '' included - what comes back equals what went in (seeded change: falsy documents
+    skipped the loader). None is SQL NULL by that type's documented design and is not sent."""
+    from adaptix.integrations.sqlalchemy import AdaptixJSON  # noqa: PLC0415
+
+    if x is None:
+        return
+    r = make_retort(*MODES[0])
+    made = attempt(AdaptixJSON, r, node.hint)
+    if made.kind != "ok":
+        ctx.count("sqlalchemy_json_type_not_creatable")
+        return
+    tp = made.value
+    bound = attempt(tp.process_bind_param, x, None)
+    if bound.kind != "ok" or bound.value is None:
+        return      # dumping is judged by the main leg; a document that IS None cannot be told from SQL NULL (that type's documented design)
+    if not domain_ok(_QuietCounters(), node, bound.value, MODES[0][1], x, "direct"):
+        return
+    back = attempt(tp.process_result_value, bound.value, None)
+    ctx.evaluated((node.src, repr(x)[:300], "AdaptixJSON"), nontrivial=not bound.value)
+    ctx.count("leg_sqlalchemy_json")
+    if not bound.value and bound.value is not None:
+        ctx.count("leg_sqlalchemy_json_falsy_document")
+    if back.kind != "ok" or not strict_eq(x, back.value):
+        ctx.violation("value-changed:AdaptixJSON" if back.kind == "ok" else "load-failed:AdaptixJSON",
+                      f"AdaptixJSON({node.src}): bind {x!r} -> {bound.value!r}, result {back!r:.200}", {"type": node.src, "x": repr(x)[:300], "document": repr(bound.value)[:300]})
+
+
+class _QuietCounters:
+    def count(self, *a, **k):
+        pass
+
+
+def _falsy_documents(ctx):
+    """Values whose dumped document is falsy: empty containers, zero, empty string / bytes, zero timedelta, flag zero member."""
+    import datetime as dtm  # noqa: PLC0415
+
+    cases = [(spec.IterT("List", spec.IntT()), []), (spec.IterT("FrozenSet", spec.IntT()), frozenset()), (spec.DictT("Dict", spec.StrT(), spec.IntT()), {}),
+             (spec.IntT(), 0), (spec.FloatT(), 0.0), (spec.StrT(), ""), (spec.BoolT(), False), (spec.SCALAR_BY_KIND["bytes"], b""), (spec.TimedeltaT(), dtm.timedelta(0)),
+             (spec.FlagT(spec.FZ), spec.FZ.NONE), (spec.TupleT([]), ()), (spec.IterT("VarTuple", spec.StrT()), ())]
+    for node, x in cases:
+        sqlalchemy_json_leg(ctx, node, x)
 
 
 def _values(node, values):
@@ -133,5 +180,6 @@ def _all_scalars(ctx):
 
 DIRECTED = {
     "all-scalars": _all_scalars,
+    "sqlalchemy-json-falsy-documents": _falsy_documents,
     "literal-bytes-strict": _values(spec.LiteralT((b"abc", 1)), [b"abc", 1]),
 }
